@@ -1,7 +1,7 @@
 package p9
 
 // Replays of the known findings that are recorded, not repaired
-// (known_findings.txt): F2, F5, F9, F10. Each test FAILS on the current tree -
+// (known_findings.txt): F2, F9, F10 (F5 was repaired later; its test now passes and is registered as replay/f5.json). Each test FAILS on the current tree -
 // that is the demonstration of the defect on the real code. They are not part
 // of any check's pass/fail decision (the checks print KNOWN-FINDING for the
 // listed obligations); run one with
